@@ -343,14 +343,6 @@ def run_script(script, args, timeout):
     return r.returncode, r.stdout
 
 
-LUA_FINDINGS = [
-    ("lua-object-fields", r"UndefVar|RangesDiffer|EndDiffers", "object fields / match payloads: dissect_<x>(...) is called without assigning its result to offset, and the main dissector passes the undefined global 'subtree' (lua_wsp_generator.go:373,387): fields after a nested object or match payload are shown at drifted offsets and the dissector does not finish at the end of the message"),
-    ("lua-protofield-int", r"NoCtor", "signed integer fields are declared with ProtoField.int (luaBasicTypeMap LuaType 'int'), which is not a Wireshark constructor: the script does not load"),
-    ("lua-forward-reference", r"UndefCall", "'local function dissect_<x>' is only visible to functions defined after it: a packet that references a packet declared later calls a nil value"),
-    ("lua-u64-prefix", r"'Type'|Type:", "u64 length prefixes are read with uint64(), a userdata that cannot be a loop bound or a range length"),
-    ("lua-subdissector-at-end", r"Beyond", "every sub-dissector starts with buf(offset, 1): a packet dissected at the very end of the buffer (empty payload) reads beyond it"),
-    ("lua-reserved-key-name", r"Syntax", "a match key field is copied into a local named snake(field name): 'End' becomes the reserved word 'end'"),
-]
 
 
 @handler("C15")
@@ -379,9 +371,9 @@ def lua_check(res, known, args):
                        "theorem_or_correspondence": "T2d gen_lua vs extract_lua"}, found=False)
     if selft and int(selft.group(2)) > 0:
         res.violation({"kind": "harness", "what": "extractor self-test: %s text mutations went unnoticed" % selft.group(2)}, found=False)
-    for fid, rx, what in LUA_FINDINGS:
-        if any(re.search(rx, v[1]) for v in verd):
-            res.known.append("finding=%s %s" % (fid, what))
+    for f in known["findings"]:
+        if "lua_verdict" in f and any(re.search(f["lua_verdict"], v[1]) for v in verd):
+            res.known.append("finding=%s %s" % (f["id"], f["what"]))
     res.coverage.update({"programs": cases, "evaluations": cases, "distinct_nontrivial": cases, "mismatches": mism,
                          "verdicts": {k: v for k, v in verd}, "fragment_violations": bad,
                          "extractor_selftest": selft.group(0) if selft else None,
@@ -390,11 +382,10 @@ def lua_check(res, known, args):
     res.assumptions += ["the Wireshark Lua API as written down in coq/Lua/LuaIR.v (no Lua interpreter or tshark in the sandbox)"]
 
 
-CLI_WITNESSES = [
-    ("cli-d-and-f", ["format", "-d", "packet A {u8 x,}", "-f", "{file}"], "format -d X -f file overwrites (or creates) the file with the formatted X and prints nothing"),
-    ("cli-help-rewritten", ["help"], "'fin-protoc help' (and 'completion') is rewritten to 'compile help': cobra adds those commands only inside Execute, after isSubcommand has run"),
-    ("cli-empty-d", ["format", "-d", ""], "format -d \"\" prints 'Please provide a DSL string or a file path' and exits 1 although the formatter accepts the empty text"),
-]
+
+
+def cli_what(known, fid):
+    return next((f["what"] for f in known["findings"] if f["id"] == fid), fid)
 
 
 @handler("C16")
@@ -418,13 +409,13 @@ def cli_check(res, known, args):
     open(f, "w").write("packet Keep {\n    u8 keep,\n}")
     r = subprocess.run([binp, "format", "-d", "packet A {u8 x,}", "-f", f], stdout=subprocess.PIPE, stderr=subprocess.STDOUT, text=True, cwd=scratch)
     if "Keep" not in open(f).read():
-        res.known.append("finding=cli-d-and-f " + CLI_WITNESSES[0][2])
+        res.known.append("finding=cli-d-and-f " + cli_what(known, "cli-d-and-f"))
     r = subprocess.run([binp, "help"], stdout=subprocess.PIPE, stderr=subprocess.STDOUT, text=True, cwd=scratch)
     if "could not read file" in r.stdout:
-        res.known.append("finding=cli-help-rewritten " + CLI_WITNESSES[1][2])
+        res.known.append("finding=cli-help-rewritten " + cli_what(known, "cli-help-rewritten"))
     r = subprocess.run([binp, "format", "-d", ""], stdout=subprocess.PIPE, stderr=subprocess.STDOUT, text=True, cwd=scratch)
     if r.returncode != 0:
-        res.known.append("finding=cli-empty-d " + CLI_WITNESSES[2][2])
+        res.known.append("finding=cli-empty-d " + cli_what(known, "cli-empty-d"))
     dist = dict(re.findall(r"^  (\S.*?)\s{2,}(\d+)$", out, re.M))
     res.coverage.update({"programs": cases, "evaluations": cases, "distinct_nontrivial": cases, "mismatches": mism, "distribution": dist,
                          "rule": "real binary and real c-shared library (ctypes) run in fresh scratch directories on DSL texts x entry points x flag spellings x all 64 output-flag subsets; stdout, exit code and resulting directory tree compared with the Coq wrapper model instantiated with the real library results (hook)",
